@@ -97,6 +97,7 @@ def run_history(fam, kind, impl, rng, rec, h):
     p_commit = rng.choice([0.08, 0.15, 0.3])
     p_abort = rng.choice([0.03, 0.06, 0.12])
     ncommit = 0
+    f34 = [False]
 
     def after(ls, op, args):
         pass
@@ -156,6 +157,8 @@ def run_history(fam, kind, impl, rng, rec, h):
                          written=len(storage.writes_log[-1]))
                 if inline:
                     d['finding'] = 'F22'
+                elif f34[0]:
+                    d['finding'] = 'F34'
                 ls.violation('lost-or-damaged-after-commit', **d)
                 return
             # the writer itself must be unaffected by committing
@@ -170,6 +173,9 @@ def run_history(fam, kind, impl, rng, rec, h):
                 return
             committed = ls.m.copy()
             tx_events = set()
+            if is_tree and minidb.embedded_but_leaf_has_oid(conn, c):
+                f34[0] = True
+                rec.ev('f34-condition')
             if inline:
                 # the stored database would be F22-damaged later on
                 rec.ev('f22-shape-committed-clean')
